@@ -155,6 +155,11 @@ impl ValueTryAs for Value {
 /// Convert each item of an iterator to CBOR, and wrap the lot in
 /// a [`Value::Array`]
 pub uninterp spec fn iter_enc_ok<C>(c: C, a: Seq<Value>) -> bool;
+pub uninterp spec fn iter_enc_err<C>(c: C, e: CoseError) -> bool;
+pub broadcast axiom fn axiom_iter_enc_err_vec<T: AsCborValue>(v: Vec<T>, e: CoseError)
+    ensures #[trigger] iter_enc_err::<Vec<T>>(v, e) ==> exists |i: int| 0 <= i < v@.len() && (#[trigger] v@[i]).enc_rel(Err::<Value, CoseError>(e));
+pub broadcast axiom fn axiom_iter_enc_err_btreeset<T: AsCborValue + Ord>(s: alloc::collections::BTreeSet<T>, e: CoseError)
+    ensures #[trigger] iter_enc_err::<alloc::collections::BTreeSet<T>>(s, e) ==> exists |x: T| s@.contains(x) && #[trigger] x.enc_rel(Err::<Value, CoseError>(e));
 pub broadcast axiom fn axiom_iter_enc_ok_vec<T: AsCborValue>(v: Vec<T>, a: Seq<Value>)
     ensures #[trigger] iter_enc_ok::<Vec<T>>(v, a) ==> (a.len() == v@.len() && forall |i: int| 0 <= i < a.len() ==> (#[trigger] v@[i]).enc_rel(Ok::<Value, CoseError>(a[i])));
 pub broadcast axiom fn axiom_iter_enc_ok_btreeset<T: AsCborValue + Ord>(s: alloc::collections::BTreeSet<T>, a: Seq<Value>)
@@ -171,7 +176,8 @@ where
     C::Item: AsCborValue,«
     ensures
         r matches Ok(v) ==> v is Array,
-        r matches Ok(v) ==> (v matches Value::Array(a) ==> iter_enc_ok::<C>(c, a@)),»
+        r matches Ok(v) ==> (v matches Value::Array(a) ==> iter_enc_ok::<C>(c, a@)),
+        r matches Err(e) ==> iter_enc_err::<C>(c, e),»
 {
     Ok(Value::Array(
         c.into_iter()
